@@ -11,6 +11,7 @@ use std::io::Cursor;
 use std::sync::atomic::{AtomicUsize, Ordering};
 
 mod admission;
+mod assume;
 mod agones;
 mod filters;
 mod fixedloc;
@@ -81,6 +82,7 @@ fn main() {
         "fixed_locale" => fixedloc::sweep(seed),
         "filters" => filters::sweep(seed),
         "admission" => admission::sweep(seed),
+        "assume" => assume::all(seed),
         "shutdown" => admission::shutdown(seed),
         "stall" => admission::stall(seed),
         "drain" => admission::drain(seed),
